@@ -164,6 +164,14 @@ class Prop(common.PropertyCheck):
                     'version': ['FCS3.0', 'FCS3.1'][i % 2], 'delim': chr(d), 'datatype': 'I', 'byteord': '1,2,3,4', 'widths': [8], 'ranges': [256],
                     'events': [[1], [2]], 'extra': [['K1', 'v1']], 'stext': [['SK', 'sv']], 'raw_stext': raw.format(d=chr(d)),
                     'order': ['TSDA', 'TDAS', 'STDA'][i % 3], 'analysis': None, 'pad_data': 0}}
+        # a supplemental TEXT segment of length zero (declared with end = begin - 1) in front of an ANALYSIS segment that has to be read with the TEXT delimiter
+        for i in range(self.budget(8, 40)):
+            d = [47, 124, 33, 12][i % 4]
+            yield {'k': 'file', 'spec': {
+                'version': ['FCS3.0', 'FCS3.1'][i % 2], 'delim': chr(d), 'datatype': 'I', 'byteord': '1,2,3,4', 'widths': [8], 'ranges': [256],
+                'events': [[1], [2]], 'extra': [['K1', 'v1']], 'stext': None, 'empty_stext': True,
+                'analysis': [['GATE%d' % j, 'a%d' % j] for j in range(1 + i % 3)], 'analysis_leading': i % 2 == 0, 'raw_analysis': None,
+                'analysis_placement': ['header', 'text'][(i // 2) % 2], 'order': 'TDA', 'text_trailer': '', 'pad_data': 0}}
         # line breaks: CR / LF are ordinary characters (also right after a delimiter, at the start of a keyword or value, and as the delimiter)
         for _ in range(self.budget(1200, 12000)):
             d = rng.choice([47, 124, 10, 13, 47, 33])
